@@ -54,7 +54,7 @@ PROPS = {
     "C09": dict(
         level="proof", engines=[eng("wedge", 40, 1500, timeout=1500)], labels=["C09"],
         text="Partial. Theorems (Props/C09.lean) over the LTS ConnMgr (sender and receiver program counters, streamMut with writer preference, streamBroken, responseMut, stream liveness, answers in flight and requests lost with a dead stream, queue, Close; 41 labels): "
-             "an 18-clause invariant is inductive; wedge_shapes: in every reachable state with an open manager in which something is owed and neither the library nor a well-behaved environment can move, the state has "
+             "a 19-clause invariant is inductive; wedge_shapes: in every reachable state with an open manager in which something is owed and neither the library nor a well-behaved environment can move, the state has "
              "one of exactly two shapes (stale-broken, stream back-pressure) — a complete list; both shapes are stuck and both are reachable (explicit traces checked by the kernel): the two known findings; requests written to a stream that has died are never forgotten "
              "(lost_is_cancelled, parked_means_nothing_lost: whoever replaces a stream answers them first), whereas the pinned code reaches a quiet state with a request lost for good (pinned_leak_reachable). "
              "Tie: isConnected, the give-up test and the three facts of the stream replacement (cancel under the write lock before the new stream, mark before SendMsg, unmarked requests skipped) regenerated from channel.go; digests of the twelve functions the LTS was written from; engine wedge: workload phases with cancellations, slow quorum functions and handlers, "
